@@ -46,6 +46,8 @@ def main(args: Any) -> int:
     nl = 60 if args.tier == "quick" else 600
     rep.bounds.append(f"{nl} generated functions with loops: for over range(constant <= 3) or range(x % 2|3), counted while loops, break / continue; symbolic trip counts explored up to 8 iterations")
     c15_ir.run_corpus(rep, tv.gen_programs(seed, nl, loops=True), "generated int programs with loops", "mypyc IR")
+    rep.bounds.append("7 tuple / sequential assignment shapes with a list[int] argument of symbolic length: list stores are compared as an ordered sequence of (slot, value) events")
+    c15_ir.run_corpus(rep, tv.assign_programs(), "assignment statements with index targets (order of target evaluation)", "mypyc IR")
     c15_ir.run_corpus(rep, tv.one_op_programs(), "one-operation functions (shared with C15/K2)", "mypyc IR")
     from vf import c05_wrappers
 
